@@ -246,6 +246,41 @@ pub fn c12_probe(_m: &mut Mon, ctx: &StepCtx, stats: &mut Stats, out: &mut Vec<V
 
 // ======================================================================= C13
 
+/// "Subsequent bonds are delegated only to registered validators": once a validator has been
+/// removed (and not added again) no later bond, re-bond or redelegation of the hub targets it.
+pub fn c13_after_removal(m: &mut Mon, ctx: &StepCtx, stats: &mut Stats, out: &mut Vec<Violation>) {
+    let o = match ctx.out {
+        Some(o) if o.ok => o,
+        _ => return,
+    };
+    let post_reg: Vec<String> = ctx.post.registry.as_ref().map(|r| r.iter().map(|v| v.address.clone()).collect()).unwrap_or_default();
+    if let Some(Op::RemoveValidator { validator, .. }) = ctx.op {
+        if !post_reg.contains(validator) {
+            m.removed_validators.insert(validator.clone());
+        }
+    }
+    m.removed_validators.retain(|v| !post_reg.contains(v));
+    if m.removed_validators.is_empty() {
+        return;
+    }
+    for c in &o.calls {
+        if c.sender != HUB || !c.ok {
+            continue;
+        }
+        let target = match &c.msg {
+            MsgRec::Delegate { validator, .. } => Some(validator),
+            MsgRec::Redelegate { dst, .. } => Some(dst),
+            _ => None,
+        };
+        if let Some(t) = target {
+            stats.check("c13_delegation_after_removal");
+            if m.removed_validators.contains(t) {
+                viol(out, "C13", "bonds_after_removal_go_to_registered_validators", ctx.idx, "hub:delegation_to_removed_validator", format!("hub delegated / redelegated to {} which was removed from the registry (registered: {:?}; step {:?})", t, post_reg, ctx.top()));
+            }
+        }
+    }
+}
+
 pub fn c13_remove_validator(_m: &mut Mon, ctx: &StepCtx, stats: &mut Stats, out: &mut Vec<Violation>) {
     let (removed, signer) = match ctx.op {
         Some(Op::RemoveValidator { validator, sender }) => (validator.clone(), sender.clone()),
